@@ -1481,7 +1481,13 @@ func (p *pinner) rebuildIndexes(ctx context.Context) error {
 		}
 		checkedCount++
 		if checkedCount%syncRepairFrequency == 0 {
-			p.flushPins(ctx, true)
+			// Sync the repairs made so far, but leave the dirty flag set
+			// (do not use flushPins here): the remaining pins are not checked
+			// yet, and if the rebuild is interrupted the next open must run
+			// it again.
+			if err = p.dstore.Sync(ctx, ds.NewKey(basePath)); err != nil {
+				return fmt.Errorf("cannot sync pin state: %v", err)
+			}
 		}
 	}
 
